@@ -13,6 +13,8 @@
  *     P <sess> <mid> <tok>                peer's piggybacked 2.05 ACK arrives
  *     R <sess> <mid>                      peer's RST arrives
  *     N <sess> <mid> <code> <tok>         peer's NON with that mid arrives (not a reply to the CON)
+ *     D <sess> <reason>                   coap_session_disconnected(session, reason); the session is dead
+ *                                         afterwards (its socket is closed): later events on it are skipped
  *     Q                                   dump the send queue (absolute deadlines)
  *   output items, each prefixed with "<index of the event>." (times relative to the start of the case):
  *     s:<ret>  tx:<t>:<sess>:<bytes>  nk:<t>:<sess>:<reason>:<mid>:<has_pdu>
@@ -33,6 +35,7 @@
 static coap_context_t *g_ctx;
 static coap_session_t *g_sess[MAXSESS];
 static int g_nsess;
+static int g_dead[MAXSESS];
 static coap_tick_t g_t0;
 static int g_logging;
 static int g_first;
@@ -119,6 +122,7 @@ static void c06(void) {
     coap_session_set_ack_random_factor(g_sess[k], arf);
     coap_session_set_max_retransmit(g_sess[k], (uint16_t)atoi(vtok[i + 4]));
     coap_session_set_nstart(g_sess[k], (uint16_t)atoi(vtok[i + 5]));
+    g_dead[k] = 0;
     i += 6;
   }
   g_logging = 1;
@@ -134,6 +138,16 @@ static void c06(void) {
         if (target > (long long)vn_now) vn_now = (coap_tick_t)target;
       }
       i += 2;
+    } else if (c == 'D' && i + 2 < vntok) {
+      int s = atoi(vtok[i + 1]) % g_nsess;
+      if (!g_dead[s]) {
+        coap_session_disconnected(g_sess[s], (coap_nack_reason_t)atoi(vtok[i + 2]));
+        g_dead[s] = 1;
+      }
+      i += 3;
+    } else if ((c == 'S' || c == 'K' || c == 'R' || c == 'P' || c == 'N') && i + 1 < vntok &&
+               g_dead[atoi(vtok[i + 1]) % g_nsess]) {
+      i += (c == 'S') ? 7 : (c == 'P') ? 4 : (c == 'N') ? 5 : 3;
     } else if (c == 'A' && i + 1 < vntok) {
       vn_advance((coap_tick_t)strtoull(vtok[i + 1], NULL, 10));
       i += 2;
